@@ -29,6 +29,7 @@ be issued.
 from __future__ import absolute_import
 
 import uuid
+import collections.abc
 
 from slimta.relay import RelayError
 
@@ -65,10 +66,19 @@ class ProxyQueue(object):
 
     def enqueue(self, envelope):
         try:
-            self.relay._attempt(envelope, 0)
+            results = self.relay._attempt(envelope, 0)
         except RelayError as e:
             return [(envelope, e)]
         else:
+            # A relay may return a result per recipient, the message was only
+            # relayed successfully if none of them is a failure.
+            if isinstance(results, collections.abc.Mapping):
+                results = results.values()
+            elif not isinstance(results, (list, tuple)):
+                results = []
+            for result in results:
+                if isinstance(result, RelayError):
+                    return [(envelope, result)]
             return [(envelope, uuid.uuid4().hex)]
 
 
